@@ -593,6 +593,13 @@ def w_explain(failure, tier):
         {"type": "function_score", "query": {"type": "term", "field": "body", "value": "rust", "boost": 0.0},
          "functions": [{"type": "weight", "weight": 3.0}], "boost_mode": "min"},
         {"type": "bool", "should": [{"type": "term", "field": "body", "value": "rust"}, {"type": "term", "field": "body", "value": "engine"}]},
+        {"type": "dis_max", "tie_breaker": 0.25, "queries": [
+            {"type": "function_score", "query": {"type": "term", "field": "body", "value": "rust"},
+             "functions": [{"type": "field_value_factor", "field": "rating", "factor": 1.0}], "score_mode": "sum", "boost_mode": "multiply"},
+            {"type": "term", "field": "body", "value": "search"}]},
+        {"type": "bool", "should": [{"type": "dis_max", "queries": [
+            {"type": "function_score", "query": {"type": "term", "field": "body", "value": "engine"}, "functions": [{"type": "weight", "weight": 4.0}]},
+            {"type": "term", "field": "body", "value": "rust"}]}]},
     ]
     reqs = []
     for q in queries:
@@ -771,6 +778,7 @@ GENERATORS = {
     ('U12', 'build_block_meta'): w_pruned,
     ('U13', 'function_values_and_base'): w_explain,
     ('U13', 'explain_fill'): w_explain,
+    ('U13', 'has_custom_scoring'): w_explain,
     ('U13', 'rescore_update'): w_explain,
     ('U14', 'fast_path_guard'): w_pagination,
     ('U7', 'page_cut'): w_pagination,
